@@ -35,6 +35,9 @@ func main() {
 			os.Exit(2)
 		}
 		fmt.Println(w.N)
+	case "flat":
+		n, _ := strconv.Atoi(os.Args[2])
+		fmt.Println(hx.FlatStream(n))
 	case "probe":
 		// xh probe <xml> <xpath>: evaluate on a document read with ReadXml, print the canonical result
 		if len(os.Args) != 4 {
